@@ -26,9 +26,13 @@ static const char* fam_name[] = {"affine-well-conditioned", "mildly-nonlinear-kn
 // LU decomposition needs row exchanges, several in a row for some permutations (zeros on the diagonal)
 enum { NPERMFAM = 48 };
 static bool is_permuted(int fam) { return fam >= FAM_COUNT && fam < FAM_COUNT + NPERMFAM; }
+// one more family, FAM_COUNT+NPERMFAM: Rosenbrock's valley (f0 = 10 (x1 - x0^2), f1 = 1 - x0, f_i = x_i - 1) started at (-1.2, 1, ...): trial steps are
+// rejected and restarted all along, for every budget from 1 to 60 (the budget tests of the solvers are equalities on a counter)
+enum { FAM_ROSENBROCK = FAM_COUNT + NPERMFAM };
 static bool is_affine(int fam) { return fam == FAM_AFFINE || (fam >= FAM_AFFINE_1EM6 && fam < FAM_COUNT) || is_permuted(fam); }
 static void perm4(int k, int out[4]) { int pool[4] = {0, 1, 2, 3}; int n = 4; for (int i = 0; i < 4; ++i) { int f = 1; for (int j = 2; j < n; ++j) f *= j; int q = k / f; k %= f; out[i] = pool[q]; for (int j = q; j + 1 < n; ++j) pool[j] = pool[j + 1]; --n; } }
 static std::string family_name(int fam) {
+  if (fam == FAM_ROSENBROCK) return "rosenbrock-valley";
   if (!is_permuted(fam)) return fam_name[fam];
   int pm[4]; perm4((fam - FAM_COUNT) % 24, pm);
   return std::string("affine-rows-permuted(base=") + ((fam - FAM_COUNT) / 24 ? "I+2*superdiagonal" : "I+2*e0e1^T") + ",rows=" + std::to_string(pm[0]) + std::to_string(pm[1]) + std::to_string(pm[2]) + std::to_string(pm[3]) + ")";
@@ -43,6 +47,11 @@ struct Runaway {};
 
 template <unsigned short N> void reference(int family, const tfel::math::tvector<N, double>& x, tfel::math::tvector<N, double>& f, tfel::math::tmatrix<N, N, double>* J) {
   if (J) for (unsigned short i = 0; i < N; ++i) for (unsigned short j = 0; j < N; ++j) (*J)(i, j) = 0;
+  if (family == FAM_ROSENBROCK) {
+    for (unsigned short i = 0; i < N; ++i) { f(i) = x(i) - 1; if (J) (*J)(i, i) = 1; }
+    if (N >= 2) { f(0) = 10 * (x(1) - x(0) * x(0)); f(1) = 1 - x(0); if (J) { (*J)(0, 0) = -20 * x(0); (*J)(0, 1) = 10; (*J)(1, 0) = -1; (*J)(1, 1) = 0; } }
+    return;
+  }
   if (is_permuted(family)) {
     int pm[4]; perm4((family - FAM_COUNT) % 24, pm); const bool super = (family - FAM_COUNT) / 24 != 0;
     for (unsigned short i = 0; i < N; ++i) {
@@ -102,7 +111,7 @@ template <unsigned short N>
 struct Probe : public SOLVER_T<N, double, Probe<N>> {
   const Plan* plan = nullptr; Log* log = nullptr;
   Probe(const Plan& p, Log& l) : plan(&p), log(&l) {
-    for (unsigned short i = 0; i < N; ++i) this->zeros(i) = (p.family == FAM_SINGULAR_START) ? 0. : 0.05 * (i + 1);
+    for (unsigned short i = 0; i < N; ++i) this->zeros(i) = (p.family == FAM_SINGULAR_START) ? 0. : (p.family == FAM_ROSENBROCK) ? (i == 0 ? -1.2 : 1.) : 0.05 * (i + 1);
     this->epsilon = 1.e-10 * scale_of(p.family);
     this->iterMax = static_cast<unsigned short>(p.iterMax);
 #if SOLVER_INDEX == 1 || SOLVER_INDEX == 4
@@ -182,7 +191,7 @@ template <unsigned short N> Verdict run_plan(const Plan& p) {
   {
     Plan p2{p.family, p.iterMax, 0u, FK_NONE}; Log log2;
     s.plan = &p2; s.log = &log2;
-    for (unsigned short i = 0; i < N; ++i) s.zeros(i) = (p.family == FAM_SINGULAR_START) ? 0. : 0.05 * (i + 1);
+    for (unsigned short i = 0; i < N; ++i) s.zeros(i) = (p.family == FAM_SINGULAR_START) ? 0. : (p.family == FAM_ROSENBROCK) ? (i == 0 ? -1.2 : 1.) : 0.05 * (i + 1);
     bool ok2 = false; bool runaway = false;
     try { ok2 = s.solve(); } catch (Runaway&) { runaway = true; }
     if (runaway) fail("too-many-evaluations", "second resolution on the same object: stopped by the harness after " + std::to_string(log2.evals.size()) + " residual evaluations for iterMax=" + std::to_string(p.iterMax));
@@ -238,6 +247,18 @@ int main(int argc, char** argv) {
         ++cases; if (v.any_fault_hit) { ++fault_reached; by_kind[kind]++; } if (v.converged) ++converged;
         if (v.cls != "ok") { ++violations; print(v.cls.c_str(), n, p, v); }
         else if ((cases % 2503) == 0 && samples < 3) { ++samples; print("sample", n, p, v); }
+      }
+    }
+  }
+  for (int n : sizes) {   // the valley: every budget, no fault or one fault early on
+    if (n < 2) continue;
+    for (int im = 1; im <= 60; ++im) for (unsigned mask = 0; mask < 4u; ++mask) {
+      if (__builtin_popcount(mask) > 1) continue;
+      for (int kind = (mask ? 1 : 0); kind < (mask ? 2 : 1); ++kind) {
+        Plan p{FAM_ROSENBROCK, im, mask, kind};
+        Verdict v = dispatch(n, p);
+        ++cases; if (v.any_fault_hit) { ++fault_reached; by_kind[kind]++; } if (v.converged) ++converged;
+        if (v.cls != "ok") { ++violations; print(v.cls.c_str(), n, p, v); }
       }
     }
   }
